@@ -18,7 +18,7 @@ def build_pool():
     # strings
     P += [s8, s16, s32, ws]
     # vectors
-    P += [Vec(u8), Vec(i16), Vec(u32), Vec(u64), Vec(c), Vec(s8), Vec(f32), Vec(eu8), Vec(Vec(u16)), Vec(Opt(u8))]
+    P += [Vec(u8), Vec(u16), Vec(i16), Vec(u32), Vec(u64), Vec(c), Vec(s8), Vec(f32), Vec(eu8), Vec(Vec(u16)), Vec(Opt(u8))]
     # arrays
     P += [Arr(u8, 4), Arr(i32, 3), Arr(s8, 2), Arr(f32, 2), Arr(b, 3), Arr(u64, 2)]
     P += [CArr(u16, 3), CArr(c, 8), CArr(s8, 2), CArr(i64, 2)]
